@@ -208,6 +208,51 @@ def classify(run, meta):
     return failures, inconclusive
 
 
+def assumption_scan(vdir):
+    """mechanical scan of the annotated crate for everything that is assumed rather than proved"""
+    items, undeclared = [], []
+    pats = [('external_body', r'#\[verifier::external_body\]'), ('assume_specification', r'\bassume_specification\b'),
+            ('external', r'#\[verifier::external\]'), ('external_type_specification', r'external_type_specification'),
+            ('external_trait_specification', r'external_trait_specification'), ('assume', r'\bassume\s*\('), ('admit', r'\badmit\s*\(')]
+    for root, _, files in os.walk(os.path.join(vdir, 'src')):
+        for fn in files:
+            if not fn.endswith('.rs'):
+                continue
+            p = os.path.join(root, fn)
+            lines = open(p).read().split('\n')
+            rel = os.path.relpath(p, vdir)
+            in_verus = False
+            for i, line in enumerate(lines):
+                if line.startswith('verus! {'):
+                    in_verus = True
+                if not in_verus or line.strip().startswith('//'):
+                    continue
+                for kind, pat in pats:
+                    if re.search(pat, line):
+                        # what it is attached to, and the clause marker that declares it
+                        what = ''
+                        for j in range(i, min(i + 6, len(lines))):
+                            m = re.search(r'\b(fn|struct|trait|static)\s+(\w+)|assume_specification[^\[]*\[\s*([^\]]+)\]', lines[j])
+                            if m:
+                                what = (m.group(2) or m.group(3) or '').strip()
+                                break
+                        marker = None
+                        for j in range(i - 1, max(i - 8, -1), -1):
+                            m = re.match(r'\s*//#\s*(\S+)', lines[j])
+                            if m:
+                                marker = m.group(1)
+                                break
+                            m = re.match(r'\s*// generated from (\S+)', lines[j])
+                            if m:
+                                marker = 'FMT(' + m.group(1) + ')'
+                                break
+                        ent = dict(kind=kind, item=what, declared_by=marker, file=rel)
+                        if kind in ('assume', 'admit'):
+                            undeclared.append('%s at %s:%d' % (kind, rel, i + 1))
+                        items.append(ent)
+    return dict(items=items, undeclared=undeclared)
+
+
 def load_known():
     p = os.path.join(HERE, 'known_findings.json')
     if os.environ.get('VERIF_IGNORE_KNOWN'):  # self-test only: show what the checks say without the findings file
@@ -302,13 +347,18 @@ def _run(pid, P, tier, seed, scratch, t0):
     if tier == 'thorough':
         extra = []
     cfgs = [True, False]
+    # vacuity pass on a second annotated copy (assert(false) at the start of every function under contract)
+    vacdir = os.path.join(scratch, 'vcrate_vacuity')
+    vmeta = ann.annotate(REPO, contracts, vacdir, vacuity=True)
     with concurrent.futures.ThreadPoolExecutor(max_workers=4) as ex:
         futs = [ex.submit(run_verus, vdir, c, extra) for c in cfgs]
+        vac_fut = ex.submit(run_verus, vacdir, True, [])
         kani_fut = None
         if P.get('kani'):
             import kani_run
             kani_fut = ex.submit(kani_run.run_harnesses, REPO, os.path.join(scratch, 'kcrate'), P['kani'], tier)
         runs = [f.result() for f in futs]
+        vac = vac_fut.result()
         kani = kani_fut.result() if kani_fut else None
     if tier == 'thorough':
         # proof stability: two more Z3 seeds and a 4x resource limit must give the same verdicts
@@ -379,6 +429,25 @@ def _run(pid, P, tier, seed, scratch, t0):
                                      message=h['claim'], cfg='cbmc', rendered=h.get('output', '')[-6000:],
                                      witness=h.get('witness'), replayed=h.get('replayed'),
                                      repo_file=h.get('repo_file'), repo_line=h.get('repo_line'), expr=''))
+
+    # vacuity: every probe must have failed
+    vac_failed = set()
+    for d in vac['diags']:
+        if d.get('level') == 'error' and 'assertion failed' in d.get('message', ''):
+            for sp in d.get('spans', []):
+                o = origin_of(vmeta, sp['file_name'], sp['line_start'])
+                if o and o.get('kind') == 'vacuity':
+                    vac_failed.add(o['fn'])
+    probes = vmeta['notes'].get('vacuity_probes', [])
+    vacuous = [q for q in probes if q not in vac_failed]
+    if vac['json'] is None:
+        inconclusive.append(dict(message='vacuity pass did not run', rendered='\n'.join(vac['raw'][-20:]), cfg='vacuity'))
+    for q in vacuous:
+        inconclusive.append(dict(message='VACUOUS: assert(false) is provable at the start of `%s` — its preconditions or the axioms in scope are contradictory' % q,
+                                 rendered='', cfg='vacuity'))
+    scan = assumption_scan(vdir)
+    for bad in scan['undeclared']:
+        inconclusive.append(dict(message='assumption scan: undeclared trusted item: %s' % bad, rendered='', cfg='scan'))
 
     # vacuity: the annotated crate must really have been verified
     summary = []
@@ -479,6 +548,8 @@ def _run(pid, P, tier, seed, scratch, t0):
             functions_under_contract=under,
             functions_verified_for_safety=verified_fns if pid in SAFETY_PROPS else None,
             external_body_assumed=ext_body,
+            assumption_scan=scan['items'],
+            vacuity=dict(probes=len(probes), failed_as_required=len(probes) - len(vacuous), rule='assert(false) inserted at the start of every function under contract must be refuted'),
             normalisations=meta['notes']['normalisations'],
             backends=dict(verus=summary, kani=(kani['summary'] if kani else None)),
             solver_time_ms=sum((s.get('smt_ms') or 0) for s in summary),
